@@ -2,6 +2,7 @@ package rules
 
 import (
 	"go/token"
+	"go/types"
 	"regexp"
 	"strings"
 
@@ -445,4 +446,103 @@ func ruleSeenBeforeCapture(r *core.Reporter) {
 	} else {
 		r.Violated("seencheck.SeencheckItem/seed-recorded-before-capture", p.InstrPos(first), "the local seencheck records the top-level seed as seen while it is only preprocessed (%d write(s) reachable for the seed itself): after a kill before its WARC write, the restart re-offers the seed, finds it `seen`, completes it and deletes it from the queue without any capture", unguarded)
 	}
+}
+
+func init() {
+	register(&core.Rule{ID: "R-CONSUMER-DISCARD", Props: []string{"C04", "C15"}, Doc: "queue consumers (hq/lq consumerSender): handing a queued URL straight to the finish channel — which deletes it from the queue without a fetch — happens only for the URL whose own Parse() just failed: from the receive of a URL, with the `err != nil` side of that iteration's (*URL).Parse cut, the send on finishCh is unreachable (the path environment follows the discard flag). A flag that survives the iteration makes every later URL 'finished' without ever having been crawled", Run: ruleConsumerDiscard})
+}
+
+func ruleConsumerDiscard(r *core.Reporter) {
+	p := r.P
+	n := 0
+	for _, pkg := range []string{pkgLQ, pkgHQ} {
+		fn := p.Func(rel(pkg), "consumerSender")
+		key := rel(pkg) + ".consumerSender/discard"
+		if fn == nil {
+			r.Undecided(key, "", "anchor not found")
+			continue
+		}
+		r.Analysed(fn)
+		// the finish-channel sends (select arms or plain) of an item
+		var sends []ssa.Instruction
+		type edge struct {
+			b *ssa.BasicBlock
+			s int
+		}
+		sendEdges := map[edge]bool{}
+		for _, si := range ir.Selects(fn) {
+			for _, arm := range si.Arms {
+				if arm.State.Dir == types.SendOnly {
+					if _, f, ok := fieldOfLoad(arm.State.Chan); ok && f == "finishCh" && arm.EdgeB != nil {
+						sendEdges[edge{arm.EdgeB, arm.EdgeS}] = true
+						sends = append(sends, si.Sel) // reaching the select is offering the send
+					}
+				}
+			}
+		}
+		allInstrs(fn, func(in ssa.Instruction) {
+			if snd, ok := in.(*ssa.Send); ok {
+				if _, f, okf := fieldOfLoad(snd.Chan); okf && f == "finishCh" {
+					sends = append(sends, in)
+				}
+			}
+		})
+		if len(sends) == 0 {
+			r.Held(key, 0, "the consumer never sends to the finish channel")
+			continue
+		}
+		// the receive arm of the URL buffer
+		var start *ir.Pt
+		for _, si := range ir.Selects(fn) {
+			for _, arm := range si.Arms {
+				if arm.State.Dir == types.RecvOnly && arm.Body != nil {
+					if _, isDone := ir.IsDoneChan(arm.State.Chan); !isDone {
+						pt := ir.Pt{B: arm.Body, I: 0}
+						if arm.EdgeB != nil {
+							pt = ir.EdgePt(arm.EdgeB, arm.EdgeS)
+						}
+						start = &pt
+					}
+				}
+			}
+		}
+		if start == nil {
+			r.Undecided(key, fnPos(p, fn), "receive arm of the URL buffer not found")
+			continue
+		}
+		// Parse() error edges
+		cut := map[edge]bool{}
+		parses := 0
+		allInstrs(fn, func(in ssa.Instruction) {
+			c, ok := in.(*ssa.Call)
+			if !ok || !ir.IsCallTo(c, "(*"+pkgModels+".URL).Parse") {
+				return
+			}
+			parses++
+			for _, ii := range ir.Ifs(fn) {
+				a := ii.Atom
+				if a.V == nil && a.Op == token.EQL && ((a.X == ssa.Value(c) && ir.IsNilConst(a.Y)) || (a.Y == ssa.Value(c) && ir.IsNilConst(a.X))) {
+					cut[edge{ii.If.Block(), ii.EdgeWhen(false)}] = true // err != nil
+				}
+			}
+		})
+		if parses == 0 || len(cut) == 0 {
+			r.Undecided(key, fnPos(p, fn), "the consumer's Parse() error test was not found (%d Parse calls)", parses)
+			continue
+		}
+		n++
+		res := ir.Reach([]ir.Pt{*start}, ir.Opts{EdgeOK: func(b *ssa.BasicBlock, s int) bool { return !cut[edge{b, s}] }})
+		var bad ssa.Instruction
+		for _, s := range sends {
+			if res.Reached[s] {
+				bad = s
+			}
+		}
+		if bad != nil {
+			r.Violated(key, p.InstrPos(bad), "a queued URL can be sent to the finish channel although its own Parse() succeeded (the discard decision survives from an earlier URL, or does not depend on the parse): it is deleted from the queue without ever being crawled, and a restart cannot bring it back")
+		} else {
+			r.Held(key, len(sends), "finish-channel hand-over only on the URL's own Parse() failure")
+		}
+	}
+	r.Floor("queue consumers with a discard path", n, 1)
 }
